@@ -320,8 +320,8 @@ PROPS["C02"] = {
                   "from_base_and_reg", "from_base_and_two_regs", "relative_jump (incl. the returned closure)", "source_addr_mode / source_register / destination_addr_mode / destination_register / reg_to_u8"],
     "timeout": 600,
     "technique": "function contracts on the translator: per-line postcondition (emitted items == documented encoding, address counter advances by the emitted bytes, label table/limits frame), label definition and late substitution; Kani/CBMC over symbolic instructions of every variant and operand shape",
-    "level_text": "Proof (partial, see note) per source line: for each one-byte instruction variant, each jump/call (label item and the relative-offset closure target-(address+2) mod 256), DEC with all five operand shapes, .ORG forward, .BYTE n, *STACKSIZE and *PROGRAMSIZE, with symbolic registers/constants and a symbolic address counter, the real push_instruction emits exactly the documented encoding, advances the counter by the emitted length and leaves label table and limits alone; the two-byte vector builders are proved against the reference for the register / (R+) / ((R+)) source shapes and all four register-based destination shapes; the mode/register field functions for every shape.",
-    "level_note": "Trusted: Kani/CBMC, rustc, enc_ref (my transcription of the documented encoding = dispatch layout of the control store), kani::stub(RandomState::new -> fixed keys); label texts are fixed strings (parametricity). NOT DECIDED (verifier runs out of memory on heap-string clones / hash-map probing / iterator adapters): two-byte forms whose operand carries a constant, label, absolute address or (R) source (their mode/register fields ARE proved), .DB/.DW data bytes, label definition + late substitution in finish (case-insensitive lookup), and the whole-image concatenation; these parts of the statement are not claimed. BOUNDED: .ORG/.BYTE fill <= 5.",
+    "level_text": "Proof (partial, see note) per source line: for each one-byte instruction variant, each jump/call (label item and the relative-offset closure target-(address+2) mod 256), DEC with all five operand shapes, .ORG forward, .BYTE n, *STACKSIZE and *PROGRAMSIZE, with symbolic registers/constants and a symbolic address counter, the real push_instruction emits exactly the documented encoding, advances the counter by the emitted length and leaves label table and limits alone; the two-byte vector builders are proved against the reference for: compile_instruction_mov with destination R or (R+) and EVERY source shape (register, (R), (R+), ((R+)), constant, label, (address), (label)), destination ((R+)) with all but one, destinations (R), (address), (label) with the register-based sources; from_bases_dst_and_src (CMP/BITT/BITS/BITC) for all six destination shapes with sources R, (R+), ((R+)); from_bases_and_src (LDSP/LDFR) for every source shape but a numeric constant; the mode/register field functions for every shape.",
+    "level_note": "Trusted: Kani/CBMC, rustc, enc_ref (my transcription of the documented encoding = dispatch layout of the control store), kani::stub(RandomState::new -> fixed keys); label texts are fixed strings (parametricity). NOT DECIDED (verifier runs out of memory on heap-string clones behind references / hash-map probing / iterator adapters): the remaining operand-shape pairs of the two-byte builders (mostly CMP/BITx with a constant, label, absolute or (R) source; their mode/register fields ARE proved), push_instruction's dispatch of the two-byte instructions to those builders, .DB/.DW data bytes, label definition + late substitution in finish (case-insensitive lookup), and the whole-image concatenation; these parts of the statement are not claimed. BOUNDED: .ORG/.BYTE fill <= 5.",
     "bounded": ["c02_d_org / c02_d_byte: fill lengths <= 5 (unwind 8)"],
     "samples": [{"obligation": "C02.P.push.items-are-documented-encoding", "text": "push_instruction(inst) appends exactly enc_ref(inst, next_addr)", "domain": "every Instruction variant x operand shape x register, symbolic constants and address"}],
     "trusted": ["kani::stub(std::hash::RandomState::new -> fixed keys)"],
@@ -350,11 +350,11 @@ PROPS["C12"] = {
                         ("emulator-2a-lib/src/machine/mod.rs", "c12_machine.rs", "verif_c12m"),
                         ("emulator-2a-lib/src/runner/mod.rs", "c12_runner.rs", "verif_c12")],
     "groups": [{"match": "c12_run_schedule", "flags": ["-Z", "stubbing"]}, {"match": ".*", "flags": []}],
-    "functions": ["RunExpectations::verify", "RunnerConfig::run (scheduling loop)", "Machine::new_with_program / trigger_key_interrupt / cpu_reset / trigger_key_clock (as called from run)"],
+    "functions": ["RunExpectations::verify", "RunnerConfig::run (scheduling loop)", "Machine::new_with_program / apply_configuration (configuration applied after load)", "Machine::new_with_program / trigger_key_interrupt / cpu_reset / trigger_key_clock (as called from run)"],
     "timeout": 900,
     "technique": "function contract on RunExpectations::verify (complete, symbolic expectations and machine) + caller-against-callee-contract check of RunnerConfig::run's schedule loop with abstract edge/interrupt/reset (kani::stub, ghost log), Kani/CBMC",
     "level_text": "Proof for verify: Ok exactly when every stated expectation equals the machine's value, for all 2^3 expectation subsets x values x machine states; the error names the first mismatch with both values. The schedule loop of run is checked against the reference schedule for every behaviour of the callees, BOUNDED to 5 cycles and two interrupt/reset entries each.",
-    "level_note": "Trusted: Kani/CBMC, rustc; stubs for AsmParser::parse / Translator::compile (C03/C02's business), Instant::now/elapsed, and the three machine operations (represented by their contracts). NOT COVERED (outside either verifier's reach): structopt argument parsing incl. the three radices (str parsing), the printed report, the process exit status in main, and that apply_configuration forwards every configured input (setter frames are C05/C14).",
+    "level_note": "Trusted: Kani/CBMC, rustc; stubs for AsmParser::parse / Translator::compile (C03/C02's business), Instant::now/elapsed, and the three machine operations (represented by their contracts). NOT COVERED (outside either verifier's reach): structopt argument parsing incl. the three radices (str parsing), the printed report, and the process exit status in main.",
     "bounded": ["c12_run_schedule: max_cycles <= 5, interrupts/resets lists of exactly two entries in 0..=6"],
     "samples": [{"obligation": "C12.V.verify.ok-exactly-when-all-expectations-hold", "text": "verify(result).is_ok() <=> (state none or equal) & (FE none or equal) & (FF none or equal)", "domain": "symbolic expectations x fully symbolic machine"}],
     "trusted": ["kani::stub for AsmParser::parse, Translator::compile, Instant::now/elapsed, RawMachine::trigger_clock_edge / trigger_key_edge_interrupt / cpu_reset in c12_run_schedule"],
